@@ -65,9 +65,11 @@ OddLons(cf) == {k \in (-Period(cf))..Period(cf) : k % 2 = 1}       \* two turns:
 OddLats(cf) == {j \in (-Pole(cf))..Pole(cf) : j % 2 = 1}
 
 \* ------------------------------------------------------------------ state space
-\* i = -1: a configuration has been chosen (whole-grid theorems);  i >= 0: one of its chunks (per-chunk theorems)
-Init == c \in Configs /\ i = -1
-Next == i = -1 /\ i' \in 0..(NChunks(c) - 1) /\ c' = c
+\* i = -2: a configuration has been chosen;  i = -1: its whole-grid theorems;  i >= 0: one of its chunks
+\* (the whole-grid theorems sit one step after the initial state so that TLC's workers share them)
+Init == c \in Configs /\ i = -2
+Next == \/ i = -2 /\ i' = -1 /\ c' = c
+        \/ i = -1 /\ i' \in 0..(NChunks(c) - 1) /\ c' = c
 Spec == Init /\ [][Next]_<<c, i>>
 
 \* ------------------------------------------------------------------ theorems
@@ -94,4 +96,30 @@ SamplerIsChunk == i >= 0 => \A k \in OddLons(c), j \in OddLats(c) :
 NoHoles == i = -1 =>
     \A k \in OddLons(c), j \in OddLats(c) :
         Cardinality({ch \in 0..(NChunks(c) - 1) : CodeUses(c, ch, k, j)}) = 1
+\* ------------------------------------------------------------------ directions ON cell edges (even units)
+\* TOAST pixel centres do fall exactly on map meridians (the tile diagonals, lon = +-45, +-135 deg), so a chunk seam
+\* can pass through pixel centres.  The whole-map sampler (plate_carree_planet_sampler) gives such a direction the
+\* pixel  GlobalCol / GlobalRow  (same arithmetic as CodeIx/CodeIy with the map as the only chunk, then clipped).
+Clip(x, lo, hi) == IF x < lo THEN lo ELSE IF x > hi THEN hi ELSE x
+GlobalCol(cf, k) == Clip(RoundDiv(NormLon(cf, k) - (2 - 2 * W(cf)), 4), 0, W(cf) - 1)
+GlobalRow(cf, j) == Clip(RoundDiv((Pole(cf) - 2) - j, 4), 0, H(cf) - 1)
+AllLons(cf) == (-Period(cf))..Period(cf)
+AllLats(cf) == (-Pole(cf))..Pole(cf)
+\* Design theorem: "index the pixel in the whole map, then hand it to the chunk that owns that pixel" leaves no
+\* direction without a chunk - also on seams - and agrees with the containment semantics off the edges.
+SeamsCovered == i = -1 =>
+    \A k \in AllLons(c), j \in AllLats(c) :
+        /\ Cardinality({ch \in 0..(NChunks(c) - 1) : InChunk(c, ch, GlobalCol(c, k), GlobalRow(c, j))}) = 1
+        /\ (k % 2 = 1 /\ j % 2 = 1) => (GlobalCol(c, k) = ColOf(c, k) /\ GlobalRow(c, j) = RowOf(c, j))
+\* Observation about the per-chunk arithmetic (CodeIx / CodeIy): on every interior seam the index is an exact
+\* rounding tie in BOTH neighbouring chunks (cw - 1/2 in the one, -1/2 in the other).  In exact arithmetic
+\* ties-to-even resolves them consistently; evaluated in floating point either may fall on the outer side, and the
+\* direction is then used by no chunk.  (An invariant: TLC confirms the tie for every seam of every configuration.)
+IsTie(a, b) == (2 * a + b) % (2 * b) = 0
+SeamIsLocalTie == i >= 0 =>
+    LET b == Bounds(c, i)
+    IN /\ b[2] < 2 * W(c) => /\ IsTie(b[2] - (b[1] + 2), 4)                                  \* this chunk, at its east seam
+                             /\ \A n \in 0..(NChunks(c) - 1) :
+                                   Bounds(c, n)[1] = b[2] => IsTie(b[2] - (Bounds(c, n)[1] + 2), 4)   \* its east neighbour
+       /\ b[3] > -Pole(c) => IsTie((b[4] - 2) - b[3], 4)                                      \* at its south seam
 =============================================================================
